@@ -68,7 +68,7 @@ def showKind : Kind → String
 def showWorker : Worker → String
   | .imp fs => "I" ++ joinWith "," (fs.map toString)
   | .read sel => "R" ++ showKeys sel
-  | .calc k ser tw fl mn => s!"C{showKind k}:{showKeys ser}:{tw}:{fl}:{b01 mn}"
+  | .job k ser tw fl mn => s!"C{showKind k}:{showKeys ser}:{tw}:{fl}:{b01 mn}"
   | .readG sel => "G" ++ showKeys sel
   | .calcG ser tw fl => s!"H{showKeys ser}:{tw}:{fl}"
 def showShown (v : Shown) : String := s!"{showKeys v.series}:{v.twin}:{v.filt}:{v.mode}"
